@@ -132,6 +132,8 @@ FAULTS = [
     Fault("unparseable-statement", "invalid-insn", C, "[[)]]", phase="parse"),
     Fault("comma-after-mnemonic", "invalid-insn", C, "\tmov [[,]] r1", phase="parse"),
     Fault("nothing-after-comma", "invalid-operand", C, "\tmov r1[[,]] )", phase="parse"),
+    Fault("nothing-after-second-comma", "invalid-operand", C, "\tmov #1, r0[[,]] )", phase="parse"),
+    Fault("nothing-after-fifth-comma", "invalid-operand", C, "\t.word 1, 2,\t3, 4, 5[[,]]\t; and then\n\t)", phase="parse"),
     Fault("nothing-after-equals", "invalid-assignment", C, "xq§ [[=]] )", where="top", phase="parse"),
     Fault("prefix-after-infix", "invalid-expression", C, "\t.word 2 *[[]]~3", phase="parse"),
     # a dangling infix operator: blanks, tabs, a comment and a line break between the operator and the token in the operand's place
